@@ -28,7 +28,8 @@ class ModelBoom(Exception):
 
 
 class Interp:
-    def __init__(self, prog, fault=None, cache=None, include_handler=False, lookup_callouts=True):
+    def __init__(self, prog, fault=None, cache=None, include_handler=False, lookup_callouts=True, undef=False):
+        self.undef = undef  # the context lacks the name a marked def needs: its prologue raises
         self.prog = prog
         self.fault = tuple(fault[:2]) if fault else None
         self.base = bool(fault and len(fault) > 2 and fault[2] == "base")
@@ -278,8 +279,15 @@ class Interp:
         denv = {"tmpl": env["tmpl"], "defs": scope, "caller": caller, "loops": []}
 
         def body():
+            if d.get("undef") and self.undef:
+                # strict_undefined: the name lookup in the def's prologue fails -- after the def's frame and
+                # buffer exist, before anything is written
+                self.raised_in = self.active[-1]
+                raise ModelBoom("undef", 1, self.active[-1])
             if d.get("arg"):
                 self.w("(" + (arg or "") + ")")
+            if d.get("undef"):
+                self.w("ZZ")
             self.run_nodes(d["body"], denv)
 
         if d.get("cached"):
